@@ -46,9 +46,16 @@ func toNotification(host *Host) Notification {
 }
 
 func (h *Session) sendNotification(notification Notification) {
-	if len(h.C) < cap(h.C) {
-		h.C <- notification
+	// Close sets closed under the session lock before it closes C: holding the read lock here
+	// means the channel cannot be closed between the test and the send.
+	h.mutex.RLock()
+	defer h.mutex.RUnlock()
+	if h.closed {
 		return
 	}
-	Logger.Msg("notification channel is full").Int("len", len(h.C)).Struct(notification).Write()
+	select {
+	case h.C <- notification:
+	default:
+		Logger.Msg("notification channel is full").Int("len", len(h.C)).Struct(notification).Write()
+	}
 }
